@@ -297,8 +297,11 @@ func (w *world) buildObj(t *T) *schema.ObjectSchema {
 	for _, p := range t.Props {
 		var def *string
 		if p.Def != "" {
-			b, _ := json.Marshal(p.Def)
-			d := string(b)
+			d := p.Def // JSON text of an object / list default, or the bare text of a string default
+			if d[0] != '{' && d[0] != '[' {
+				b, _ := json.Marshal(p.Def)
+				d = string(b)
+			}
 			def = &d
 		}
 		ps := schema.NewPropertySchema(w.buildType(p.Type), nil, p.Req, nil, nil, nil, def, nil)
